@@ -98,6 +98,7 @@ def c14Eval (n : Ident) : MacroM (TSyntax `tactic) := do
         LExp.val, binVal, fmaLanes, lanes2, zeroLane, lanesOfTy, allSome, maxLane, add2, hext.relu, hext.select,
         lift2_add_comm, lift2_add_assoc, lift2_add_left_comm,
         lift2_mul_neg_one, lift2_one_mul, lift2_mul_one, allSome_one_map, lift2_some_right,
+        LawfulDataAlg.mul_neg_one, LawfulDataAlg.mul_one, LawfulDataAlg.one_mul,
         blendv, cmpLt, cmpLtLanes, asSignMask, signMask, asIVec, blendLanes, kMask, loadMasked, storeMasked,
         maskInBounds, cSub, ite_neg1_lt_zero, ite_some_some])
 
@@ -176,14 +177,24 @@ macro_rules
 def cv0 : Sym → Int := fun _ => 1
 def pl0 : Sym → Place := fun s => ⟨s.id, 0, 1⟩
 /-- six buffers of sixteen cells; buffer k holds k+1 everywhere -/
-def heap0 : Heap Int := (List.range 6).map fun k => List.replicate 16 (some ((k : Int) + 1))
+def heap0 : Heap Int := (List.range 6).map fun (k : Nat) => List.replicate 16 (some ((k : Int) + 1))
 
 def heapsOf (r : Except Err (State Int)) : Option (Heap Int) :=
   match r with
   | .ok s => some s.heap
   | .error _ => none
 
+theorem viewInit_of (heap : Heap Int) (b : Nat) (o : Int) (dims : List (Int × Int)) (n : Nat)
+    (hb : viewInBounds heap ⟨b, o, dims⟩)
+    (hlen : bufLen heap b ≤ n) (h : ∀ k : Fin n, (heapGet heap (b, k.val)).isSome = true) :
+    ∀ is r, viewOffset dims is o = .ok r → (heapGet heap (b, r.toNat)).isSome = true := by
+  intro is r ho
+  have := hb is r ho
+  simp only at this
+  exact h ⟨r.toNat, by omega⟩
+
 syntax "c14_adm " ident : tactic
+syntax "c14_init_adm " ident : tactic
 syntax "c14_refute " ident : tactic
 
 macro_rules
@@ -200,6 +211,21 @@ macro_rules
           | trivial
           | (apply viewInBounds_stride1 <;> decide)
           | (apply viewInBounds_scalar <;> decide)))
+  | `(tactic| c14_init_adm $n:ident) => do
+    let I := mkIdent (n.getId ++ `instr)
+    let P := mkIdent (n.getId ++ `proc)
+    `(tactic| (
+      simp only [allViewsInit, stateOf, $I:ident, $P:ident, Proc.args, mkEnv, mkViews, shapeVal, evalC, pure,
+        Except.pure, lookupSym, cv0, pl0, and_true]
+      repeat' apply And.intro
+      all_goals first
+        | trivial
+        | (refine viewInit_of _ _ _ _ 16 ?_ ?_ ?_
+           · first
+               | (apply viewInBounds_stride1 <;> decide)
+               | (apply viewInBounds_scalar <;> decide)
+           · decide
+           · decide)))
   | `(tactic| c14_refute $n:ident) => do
     `(tactic| (
       intro h
